@@ -227,18 +227,26 @@ impl RollingFileAppender {
     }
 
     fn get_writer<'a>(&self, writer: &'a mut Option<LogWriter>) -> io::Result<&'a mut LogWriter> {
+        self.open_writer(writer, false)
+    }
+
+    // Only the open performed while building the appender may truncate the
+    // log file. A reopen (after a roll, or after a roll that failed and left
+    // the file in place) always appends so that no logged data is destroyed.
+    fn open_writer<'a>(
+        &self,
+        writer: &'a mut Option<LogWriter>,
+        initial: bool,
+    ) -> io::Result<&'a mut LogWriter> {
         if writer.is_none() {
+            let truncate = initial && !self.append;
             let file = OpenOptions::new()
                 .write(true)
-                .append(self.append)
-                .truncate(!self.append)
+                .append(!truncate)
+                .truncate(truncate)
                 .create(true)
                 .open(&self.path)?;
-            let len = if self.append {
-                file.metadata()?.len()
-            } else {
-                0
-            };
+            let len = if truncate { 0 } else { file.metadata()?.len() };
             *writer = Some(LogWriter {
                 file: BufWriter::with_capacity(1024, file),
                 len,
@@ -302,7 +310,7 @@ impl RollingFileAppenderBuilder {
         }
 
         // open the log file immediately
-        appender.get_writer(&mut appender.writer.lock())?;
+        appender.open_writer(&mut appender.writer.lock(), true)?;
 
         Ok(appender)
     }
